@@ -155,11 +155,13 @@ class Index(object):
             from .canon import canonicalise_locals
             self.canonicalised += canonicalise_locals(trees)
             self.propagated_constants = propagate_constants(trees)
+            from .normalize import desugar_namedtuples
+            self.namedtuples = desugar_namedtuples(trees)
             from .normalize import undo_extracted_locals
-            from .canon import REF
-            import json as _json
-            self.unextracted = undo_extracted_locals(trees, _json.load(open(REF))) if os.path.exists(REF) else []
-            self.inlined_helpers = normalize_package(trees)
+            from .canon import load_ref
+            ref = load_ref()
+            self.unextracted = undo_extracted_locals(trees, ref) if ref else []
+            self.inlined_helpers = normalize_package(trees, ref)
             self.desugared = desugar(trees)
         for m in self.modules.values():
             self._scan_module(m)
